@@ -14,6 +14,16 @@ checks = {
              note="Trusted: as C02; hook events are emitted from inside the callbacks (ordering rule R2).", ref="§7 C11"),
  "C14": dict(text="The transport is failed at every byte offset of bounded responses with EOF / reset / timeout style errors under random chunkings; the recorded traces are validated by TLC against Trace_RxPath.tla: deliveries are a prefix of the reference run with equal values, only from completely received packets, no synthetic final DONE before the EOM packet is complete, then an error within the read timeout.",
              note="Trusted: as C02, plus the watchdog classes for 'within the read timeout' (timeout + 4 s). No separate byte-level design model: the packet reader is observed, not modelled.", ref="§7 C14"),
+ "C16": dict(text="DecimalText.tla specifies decimal<->text on digit sequences (Fmt, the three-valued parse verdict ParseOK); TLC checks the model-level theorems Parse(Fmt(x))=x and canonical shape for all (p,s) with p<=5 over digits {0,1,9}; every call of the real Decimal (String, NewDecimalString/SetString, Cmp, NewDecimal) made by the driver - boundary values 0, 1, 10^k, 10^k-1 at sampled/all (p,s) up to 38, text variants, random strings - is an event on which TLC evaluates the specification (Trace_Decimal.tla).",
+             note="Trusted: digit extraction via big.Int.String in the harness, TLC. Three-valued oracle (see assumptions in the evidence).", ref="§7 C16"),
+ "C17": dict(text="Dsn.tla models the simple form at token level with the code-shaped tokenizer; TLC checks Tokenize(Compose(items)) = items and totality for all item lists of the small scope (the pinned tokenizer is a refuted config). Traces of the real dsn package - item lists with aliases, unknown keys and all quote styles, FormatSimple/ParseSimple and FormatURI/ParseURI round trips over the documented alphabets, URI overrides, every string up to length 4 (5) over a 16-symbol alphabet through Parse/ParseSimple/ParseURI - are validated by TLC against Trace_Dsn.tla (alias table, last-wins fold, unknown-key rule, no panic).",
+             note="Trusted: the harness composes simple-form text from items exactly as Compose does; net/url for percent-escaping.", ref="§7 C17"),
+ "C18": dict(text="NamePool.tla (sync.Pool as a bag that a GC may empty, atomic mint, Release as Put then clear) is checked exhaustively for 3 goroutines; a config without the nil-id guard is refuted, reuse of a released id is shown reachable. Concurrent histories of the real pool (1..64 goroutines, 7 formats, GOMAXPROCS 1..16, forced GCs, race detector on) are validated by TLC against the contract Trace_NamePool.tla (held set).",
+             note="Trusted: event stamping rule R2 (AcqEnd after Acquire returned, RelStart before Release is called), TLC. Data races are observed by the race detector, not decided.", ref="§7 C18"),
+ "C19": dict(text="Capability.tla models Target.SetCapabilities step by step (break on the first containing range) and is checked by TLC against the interval-membership oracle for all capabilities with 0..2 ranges over a 3-point grid incl. missing and unparsable bounds; the full table and random range lists over a 12-point semver grid (pre-release/build suffixes, default and custom comparer, reversed orders, NewCapability pairing) are executed on the real package and validated by TLC against Trace_Capability.tla.",
+             note="Trusted: the order-preserving grid table (itself checked against the comparer in every run), TLC.", ref="§7 C19"),
+ "C20": dict(text="Isolation.tla: forward table and ToGo (as-is: any key of the map with that value - refuted by TLC; repaired: explicit reverse mapping) checked for all levels; every sql.IsolationLevel -8..64 and ASE level -3..8 is evaluated 200 (1000) times in 6 (16) processes and TLC validates the merged trace: one answer per argument within and across processes, the forward table, round trip of supported levels.",
+             note="Trusted: harness naming of ASE levels by exported constants, TLC.", ref="§7 C20"),
  "C15": dict(text="PacketQueue.tla (code-shaped queue vs flat FIFO) is checked exhaustively by TLC for all operation sequences of a bounded scope; every behaviour of the small scope and simulated longer ones are replayed on the real tds.PacketQueue and the recorded traces, plus random sequences at packet sizes 9..600, are validated by TLC against Trace_PacketQueue.tla.",
              note="Trusted: the transcription of the trace events (harness pq driver), TLC, the guarded hook VerifPacketDataLens. Domain restrictions listed in DESIGN.md C15 (writes at the end position, no reads into make() padding).", ref="§7 C15"),
 }
